@@ -407,7 +407,7 @@ def seed_ttf() -> Tuple[Doc, Dict[str, Any]]:
 
     d = Doc()
     segs = [(0x0041, 0x0043, "delta", 5), (0x0061, 0x0063, "array", [9, 10, 11]), (0x3042, 0x3044, "delta", 20)]
-    prog = ttf_file([(3, 1, ttf_fmt4(segs)), (3, 10, ttf_fmt12([(0x1F600, 0x1F601, 40)]))])
+    prog = ttf_file([(3, 1, ttf_fmt4(segs)), (3, 10, ttf_fmt12([(0x1F600, 0x1F601, 40), (0x10FFFE, 0x10FFFF, 42)]))])
     ff = d.add(Stream({"Length1": len(prog)}, prog))
     fd = d.add({"Type": N("FontDescriptor"), "FontName": N("AAAAAA+Ttf"), "Flags": 4, "FontBBox": [0, -200, 1000, 800], "Ascent": 800, "Descent": -200,
                 "ItalicAngle": 0, "StemV": 80, "CapHeight": 700, "FontFile2": ff})
